@@ -4,30 +4,29 @@ package main
 
 import (
 	"fmt"
-	"unicode/utf8"
 	"go/constant"
 	"go/types"
 	"math/big"
 	"strings"
+	"unicode/utf8"
 
 	"golang.org/x/tools/go/ssa"
 )
 
 type specEnv struct {
-	ex           *Exec
-	f            *frame // function whose scope names resolve in
-	st           *State
-	old          *State
-	vars         map[string]Val
-	oldVars      map[string]Val
-	cellsFirst   bool
-	bound        map[string]T
-	inOld        bool
-	qn           *int
-	pkg          *ssa.Package
-	skipBlocks   map[*ssa.BasicBlock]bool
-	freshExcl    []T  // at a call site: fresh(x) also means distinct from the caller's earlier allocations
-	collectFresh *[]T // at a call site: objects the callee guarantees fresh join the caller's fresh set
+	ex         *Exec
+	f          *frame // function whose scope names resolve in
+	st         *State
+	old        *State
+	vars       map[string]Val
+	oldVars    map[string]Val
+	cellsFirst bool
+	bound      map[string]T
+	inOld      bool
+	qn         *int
+	pkg        *ssa.Package
+	skipBlocks map[*ssa.BasicBlock]bool
+	callPre    *State // at a call site: the caller's state before the call (fresh = allocated during the call)
 }
 
 func (f *frame) baseEnv(st, old *State) *specEnv {
@@ -639,6 +638,30 @@ func (e *specEnv) callSpec(n *ECall) Val {
 		v := e.eval(n.Args[1])
 		e.st = saved
 		return v
+	case "held":
+		// held(R) / held(W) / held(none): the ghost state of the tree lock
+		want := n.Args[0].(*EIdent).Name
+		have := e.f.heldNow(e.cur())
+		if have == want || (want == "R" && have == "W") {
+			return VBool{"true"}
+		}
+		return VBool{"false"}
+	case "errid":
+		switch v := argv(0).(type) {
+		case VIface:
+			return VInt{v.ID}
+		case VInt:
+			return v
+		}
+		e.fail("errid of non-error")
+	case "ioEOF":
+		return VInt{errID(ex.extGlobal(e.cur(), "io", "EOF"))}
+	case "ioUnexpectedEOF":
+		return VInt{errID(ex.extGlobal(e.cur(), "io", "ErrUnexpectedEOF"))}
+	case "pmt":
+		// pmt(s): the media type that mime.ParseMediaType extracts from s (assumed library function)
+		s := argv(0).(VSlice)
+		return ex.pmtOf(e.cur(), e.memOf(s)[0], s)
 	case "store":
 		// store(s, i, v): s with element i replaced by v (a different memory)
 		b := argv(0).(VSlice)
@@ -658,18 +681,24 @@ func (e *specEnv) callSpec(n *ECall) Val {
 	case "int":
 		return VInt{e.evalInt(n.Args[0])}
 	case "fresh":
+		// fresh(x): allocated since function entry (at a call site: during the call) and existing now
 		r := argv(0).(VRef)
-		cs := []T{tLt(ex.heapTop(), r.T)}
-		for _, o := range e.freshExcl {
-			cs = append(cs, tNe(r.T, o))
+		lo := ex.heapTop()
+		if e.callPre != nil && !e.inOld {
+			lo = ex.frontierOf(e.callPre)
 		}
-		if e.collectFresh != nil {
-			*e.collectFresh = append(*e.collectFresh, r.T)
-		}
-		return VBool{tAnd(cs...)}
+		return VBool{tAnd(tLt(lo, r.T), tLt(ex.heapTop(), r.T), tLe(r.T, ex.frontierOf(e.cur())))}
 	case "allocated":
+		// allocated(x): existed at function entry
 		r := argv(0).(VRef)
+		if e.callPre != nil {
+			// at a call site the callee's entry is the caller's state before the call
+			return VBool{tAnd(tLt("0", r.T), tLe(r.T, ex.frontierOf(e.callPre)))}
+		}
 		return VBool{tAnd(tLt("0", r.T), tLe(r.T, ex.heapTop()))}
+	case "existing":
+		r := argv(0).(VRef)
+		return VBool{tAnd(tLt("0", r.T), tLe(r.T, ex.frontierOf(e.cur())))}
 	case "validUTF8":
 		s := argv(0).(VSlice)
 		if bs, ok := e.concreteBytes(s); ok {
